@@ -267,9 +267,9 @@ func checkC14() fw.Check {
 		MinNontrivial: 12,
 		Assumptions:   []string{"a silent race detector is not race freedom: held on the interleavings the Go scheduler produced", "the unsynchronised wire predicts the probes (echo id base pinned through the verif hook, UDP port read from /proc/net/udp, SACK port from the accepted connection)", "Linux build"},
 		Gen: func(tier string, seed int64) []fw.Case {
-			reps := 10
+			reps := 15
 			if tier == "thorough" {
-				reps = 200
+				reps = 400
 			}
 			var cases []fw.Case
 			for _, vn := range []string{"icmp4", "icmp6", "udp4", "udp6", "sackR", "sackS"} {
